@@ -119,6 +119,9 @@ def _explore(items):
         while stack:
             p = stack.pop()
             ex, log, res = execute(code, chain, p)
+            if ex.errors and ex.terminal != 'blocked':
+                st.counters['executions_repeated_after_harness_trouble'] += 1
+                ex, log, res = execute(code, chain, p)
             st.executions += 1
             st.transitions += len(ex.points)
             st.counters['threaded_stop_schedules'] += 1
